@@ -30,6 +30,7 @@ def run(ctx):
     c_table(ctx, flows)
     d_markers(ctx, flows)
     e_options_injected(ctx)
+    c_reply_assembly(ctx)
 
 
 def a_tables(ctx, flows):
@@ -349,3 +350,23 @@ def _ancestors(node, stop):
     while p is not None and p is not stop:
         yield p
         p = getattr(p, "_parent", None)
+
+
+def c_reply_assembly(ctx):
+    """The reply of a rails-only call is the text the flows uttered (the echoed user text / the supplied bot message / the refusal).  It is assembled in
+    generate_async from the StartUtteranceBotAction events; for the reply to BE that text, the assembly must not depend on the text's value."""
+    t = ctx.tree.ast(LLMRAILS)
+    gen = find_function(t, "generate_async", "LLMRails")
+    if gen is None:
+        raise AnalysisError("LLMRails.generate_async not found", anchor=LLMRAILS + "::generate_async")
+    loops = [l for l in ast.walk(gen) if isinstance(l, ast.For) and src(l.iter) == "new_events" and any(
+        isinstance(c, ast.Call) and isinstance(c.func, ast.Attribute) and c.func.attr == "append" and src(c.func.value) == "responses" for c in ast.walk(l))]
+    ctx.floor("C16.c.reply-assembly", LLMRAILS, "loops assembling `responses` from new_events", len(loops), 1)
+    for l in loops:
+        ev = src(l.target)
+        cond = [i for i in ast.walk(l) if isinstance(i, ast.If) and re.search(r"%s\[[\"']script[\"']\]" % re.escape(ev), src(i.test))]
+        ok = not cond
+        ctx.check("C16.c.reply-assembly", LLMRAILS, "LLMRails.generate_async", first_line(cond[0].test, 70) if cond else "responses.append(%s[\"script\"])" % ev, ok,
+                  "every uttered script is appended to the reply regardless of its value" if ok else
+                  "the reply assembly tests the VALUE of an uttered script (`%s`): a user text (echoed by an input-only call), a supplied bot message or an LLM answer equal to that magic string is "
+                  "not returned but deletes the previous part of the reply" % first_line(cond[0].test, 60), line=(cond[0].lineno if cond else l.lineno))
